@@ -46,6 +46,12 @@ FAMILIES = {
     "distinct_repeated_field_keys_apart": lambda n: "@a{k, " + ", ".join(f"f{i} = 1" for i in range(n)) + ", " + ", ".join(f"f{i} = 2" for i in range(n)) + "}",
     "distinct_repeated_string_keys": lambda n: "".join(f"@string{{s{i} = {{a}}}}\n" for i in range(n)) * 2 + "@a{k, t = s0}",
     "distinct_repeated_entry_keys": lambda n: "".join(f"@a{{k{i}, t = {{x}}}}\n" for i in range(n)) * 3,
+    # runs of blanks / tabs / word characters right after an at-sign that no brace follows (what the block-start
+    # pattern has to give up on: time must stay linear in n)
+    "at_then_blanks": lambda n: "@" + " " * n + "x",
+    "at_word_then_blanks_and_tabs": lambda n: "@article" + " \t" * n + "x\n@a{k}",
+    "at_then_word_characters": lambda n: "@" + "a_1" * n + " \t" * (n % 50) + "=",
+    "many_at_signs_with_blanks": lambda n: ("@ \t " * n) + "{",
     "blank_lines": lambda n: "\n" * n,
     "comment_lines": lambda n: "% c\n" * n,
     "lines_in_value": lambda n: "@a{k, t = {" + "x\n" * n + "}}",
